@@ -23,7 +23,7 @@ CLAIMED = {
    ref="4/C04"),
  "C13": dict(
    technique="property-based testing (Hypothesis): rational inputs vs exact Fraction reference (stored coordinates, crossing vertices and parameters, transforms, split); differential run under Python 3.11",
-   text="Generated rational coordinates with denominators straddling 1e9, rational polygon pairs in general position with big prime denominators, rational move/scale/split; every stored value is compared with the exact rational (or its documented cap) and type-checked; Point2D storage is also executed under Python 3.11 by loading polygon.py by path.",
+   text="Generated rational coordinates with denominators straddling 1e9, rational polygon pairs in general position with big prime denominators, rational move/scale/split, Primitive.square/triangle/regular_polygon(4) with rational side and centre; every stored value is compared with the exact rational (or its documented cap) and type-checked; Point2D storage is also executed under Python 3.11 by loading polygon.py by path.",
    note="Trusted: exact line-line solver of the reference. Only Point2D can be crossed over Python versions (pynurbs/matplotlib exist only for 3.12). One open known finding (intermediate capping) excluded by an input predicate.",
    ref="4/C13"),
  "C18": dict(
@@ -83,7 +83,7 @@ CLAIMED = {
    ref="4/C09"),
  "C19": dict(
    technique="property-based testing (Hypothesis): generated valid member lists (validated exactly by the reference) through the direct constructors vs the model region, all permutations, and the operator-built counterpart",
-   text="ConnectedShape / DisjointShape built directly from generated valid lists (holes, unbounded, islands, curved, equal-area members, Empty entries) are compared with the model (membership on witness points, area, moments, complement), across permutations of the list, and with the shape built by operators (library == both ways); collapse rules of DisjointShape are checked including independence of the single-member copy.",
+   text="ConnectedShape / DisjointShape built directly from generated valid lists (holes, unbounded, islands, curved, equal-area members, Empty entries) are compared with the model (membership on witness points, area, moments, complement), across permutations of the list, and with the shape built by operators (library == both ways), including families of 3-5 strictly nested rings whose rings are operator-built too; ~~X and copy(X) answer like X; collapse rules of DisjointShape are checked including independence of the single-member copy.",
    note="Trusted: reference membership/moments and lib.spec_valid (exact for polygons).",
    ref="4/C19"),
  "C20": dict(
@@ -98,7 +98,7 @@ CLAIMED = {
    ref="4/C08"),
  "C10": dict(
    technique="property-based testing (Hypothesis): generated operation histories (lists of steps shrunk as one value) with a differential oracle against fresh twins (deepcopy and rebuild from control points); sub-process differentials over PYTHONHASHSEED and warm/cold memo tables",
-   text="Histories of in-place transformations, operators between bundle members (operands re-split and reused), complements, clean/split and queries; after every step the touched objects must answer area, signed lengths, box and membership exactly like a deepcopy and like an object rebuilt from their current control points, asking twice gives identical answers, and at the end also ==, containment and an operator with a third shape agree; digests of all answers are byte-identical across fresh interpreters with hash seeds 0/1/2 and warm memo tables.",
+   text="Histories of in-place transformations, operators between bundle members (operands re-split and reused), complements, clean/split and queries; after every step the touched objects must answer area, signed lengths, box and membership exactly like a deepcopy and like an object rebuilt from their current control points, asking twice gives identical answers, and at the end also ==, containment and an operator with a third shape agree; two operands in general position go as the same two objects through 2-4 operators / containment questions and every answer is compared with operands built afresh for that one question (and that with the model region); digests of all answers are byte-identical across fresh interpreters with hash seeds 0/1/2 and warm memo tables.",
    note="Trusted: nothing but the library itself on a fresh object (differential); histories whose operators raise (contact configurations created by reusing results) end there and are counted.",
    ref="4/C10"),
  "C11": dict(
